@@ -10,27 +10,32 @@ wt=/tmp/sv-$id-$$
 git -C /repo worktree add --detach $wt HEAD >/dev/null 2>&1 || { echo "worktree failed"; exit 3; }
 cleanup() { git -C /repo worktree remove --force $wt >/dev/null 2>&1; rm -rf $wt; }
 trap cleanup EXIT
-pkg=$(python3 - "$src/meta.json" <<'PY'
+read pkg run count <<<"$(python3 - "$src/meta.json" <<'PY'
 import json,sys,re
 m=json.load(open(sys.argv[1]))
 c=m.get('demo_cmd','')
-mm=re.search(r'/(memdb|server|resp|util|raftexample)/zz_demo_test\.go',c)
-print(mm.group(1) if mm else 'memdb')
+mm=re.search(r'(?:/tmp/sw-C\d+/)?([A-Za-z0-9_/.-]+)/zz_demo_test\.go',c)
+pkg=mm.group(1) if mm else 'memdb'
+pkg=re.sub(r'^/tmp/sw-C\d+/','',pkg)
+r=re.search(r"-run '?([A-Za-z0-9_|]+)'?",c)
+n=re.search(r"-count=(\d+)",c)
+print(pkg, r.group(1) if r else 'Demo', n.group(1) if n else '1')
 PY
-)
-run=$(python3 - "$src/meta.json" <<'PY'
-import json,sys,re
-m=json.load(open(sys.argv[1]))
-c=m.get('demo_cmd','')
-mm=re.search(r"-run '?([A-Za-z0-9_|]+)'?",c)
-print(mm.group(1) if mm else 'Demo')
-PY
-)
-demo() { cp $src/demo_test.go $wt/$pkg/zz_demo_test.go; (cd $wt && go test -vet=off -count=1 -timeout 600s -run "$run" ./$pkg/ >/tmp/sv-demo-$$.log 2>&1); rc=$?; rm -f $wt/$pkg/zz_demo_test.go; return $rc; }
+)"
+# the go module the package lives in (the etcd tree is a set of nested modules)
+moddir=$pkg; while [ "$moddir" != "." ] && [ ! -f /repo/$moddir/go.mod ]; do moddir=$(dirname $moddir); done
+rel=${pkg#$moddir/}; [ "$moddir" = "." ] && rel=$pkg; [ "$moddir" = "$pkg" ] && rel=.
+demo() { cp $src/demo_test.go $wt/$pkg/zz_demo_test.go; (cd $wt/$moddir && go test -vet=off -count=$count -timeout 900s -run "$run" ./$rel/ >/tmp/sv-demo-$$.log 2>&1); rc=$?; rm -f $wt/$pkg/zz_demo_test.go; return $rc; }
 demo; without=$?
 (cd $wt && git apply $src/patch.diff) || { echo "SEED $id: patch does not apply to current HEAD"; exit 3; }
 (cd $wt && go build ./... ) || { echo "SEED $id: does not build"; exit 3; }
 tests=$(cd $wt && go test -vet=off -count=1 ./memdb/ ./server/ ./util/ ./raftexample/ ./resp/ 2>&1 | grep -c "^--- FAIL")
+if [ "$moddir" != "." ]; then
+  # a change inside the etcd tree: that module's tests around the changed package must still pass as well
+  case $pkg in etcd/server/*) scope="./storage/wal/... ./etcdserver/api/snap/...";; *) scope="./...";; esac
+  etcdfail=$(cd $wt/$moddir && go test -vet=off -count=1 -timeout 1500s $scope 2>&1 | grep -c "^--- FAIL")
+  tests=$((tests+etcdfail))
+fi
 demo; with=$?
 echo "SEED $id: demo without patch rc=$without (want 0), with patch rc=$with (want !=0), failing tests with patch=$tests (baseline 2)"
 ok=0; [ $without -eq 0 ] && [ $with -ne 0 ] && [ "$tests" = 2 ] && ok=1
@@ -46,9 +51,9 @@ python3 - "$src/meta.json" "/verif/seeded/$id/meta.json" "$id" "$ok" "$without" 
 import json,sys
 m=json.load(open(sys.argv[1]))
 out={"seed_id":sys.argv[3],"property":m.get("property"),"title":m.get("title"),"files":m.get("files"),"what_breaks":m.get("what_breaks"),"needs_to_manifest":m.get("needs_to_manifest"),
- "demonstration":{"file":"demo_test.go","how":"copy to %s/zz_demo_test.go in a worktree and run: go test -vet=off -count=1 -run '%s' ./%s/"%(sys.argv[10],sys.argv[9],sys.argv[10])},
+ "demonstration":{"file":"demo_test.go","how":"copy to %s/zz_demo_test.go in a worktree and run, in the go module that contains it: go test -vet=off -run '%s' <that package>"%(sys.argv[10],sys.argv[9])},
  "confirmed_by_me":{"ok":sys.argv[4]=="1","demo_rc_without_patch":int(sys.argv[5]),"demo_rc_with_patch":int(sys.argv[6]),"failing_first_party_tests_with_patch":int(sys.argv[7]),"baseline_failing_tests":2,
-   "what_i_ran":"tools/seedverify.sh: fresh git worktree of /repo HEAD under /tmp, git apply, go build ./..., go test ./memdb ./server ./util ./raftexample ./resp, demonstration with and without the patch"},
+   "what_i_ran":"tools/seedverify.sh: fresh git worktree of /repo HEAD under /tmp, git apply, go build ./..., go test ./memdb ./server ./util ./raftexample ./resp (plus the surrounding etcd module tests for a change in the etcd tree), demonstration with and without the patch"},
  "checks_run_against_it":sys.argv[8].split(),"origin":"independent sub-agent given only the property text"}
 json.dump(out,open(sys.argv[2],'w'),indent=1)
 PY
